@@ -117,10 +117,12 @@ class Prop:
         self.tasks = {}
         self.needs = list(needs)   # extra build steps: callables
 
-    def sub(self, name, strategy, quick, thorough, variants=None, max_workers=None, **settings):
+    def sub(self, name, strategy, quick, thorough, variants=None, max_workers=None, chunk=150, **settings):
+        """chunk: generated instances per worker process (lower it for expensive sub-checks so that they spread over the cores)"""
         def deco(fn):
             self.subs[name] = Sub(name, fn, strategy, quick, thorough, variants or self.variants[:1],
                                   (fn.__doc__ or "").strip(), max_workers, settings)
+            self.subs[name].chunk = chunk
             return fn
         return deco
 
@@ -370,7 +372,7 @@ def drive(prop, tier, seed, only=None, jobs=None, scale=1.0):
         total = s.quick if tier == "quick" else s.thorough
         total = max(1, int(total * scale))
         for variant in s.variants:
-            w = min(jobs, s.max_workers or jobs, max(1, total // 150))
+            w = min(jobs, s.max_workers or jobs, max(1, total // getattr(s, 'chunk', 150)))
             per = (total + w - 1) // w
             for i in range(w):
                 chunks.append((s.name, variant, per, derive_seed(seed, prop.pid, s.name, variant, i), i))
